@@ -10,7 +10,7 @@ import z3
 
 import bstr
 from bstr import bv, b8, ult, ule, ugt, uge
-from symex import VStr, VInt, VBool, VStruct, VEnum, VUnit, none, some, is_ok, ok, TAG
+from symex import VStr, VInt, VBool, VStruct, VEnum, VUnit, none, some, is_ok, ok, TAG, err
 import models_stream as ms
 
 BMFF = "/repo/sdk/src/asset_handlers/bmff_io.rs"
@@ -19,12 +19,17 @@ FILES = [BMFF]
 
 
 def caps(tier):
-    return dict(data=24) if tier == "quick" else dict(data=32)
+    return dict(data=24, long=300) if tier == "quick" else dict(data=32, long=600)
 
 
 OVERRIDES = dict(ms.OVERRIDES)
 OVERRIDES["BoxType::from"] = lambda I, a, pc: a[0]
 OVERRIDES["From::from"] = lambda I, a, pc: a[0]
+
+
+def engine_json(v):
+    import symex
+    return symex.concrete(v)
 
 
 def LITS():
@@ -71,6 +76,11 @@ def make_queries(tier):
         """read_box_header_ext, meta_box_lacks_fullbox_header, _skip_bytes, skip_bytes_to, box_start: no panic"""
         d = raw_bytes(E, "data", 16)
         pos = E.int("start", 18)
+        if E.mode != "symbolic":
+            # native replay: the four helpers on fresh cursors over the solver's bytes (a panic reproduces the finding)
+            amount = E.int("amount")
+            E.native("bmff_small_helpers", [engine_json(d), int(E.model_inputs["start"]), int(E.model_inputs["amount"])])
+            return
         E.call("read_box_header_ext", ms.stream(d, pos))
         E.call("meta_box_lacks_fullbox_header", ms.stream(d, pos))
         amount = E.int("amount")
@@ -79,7 +89,18 @@ def make_queries(tier):
         E.cover("skip past u64::MAX rejected", z3.Not(is_ok(r)))
         E.cover("skip accepted", is_ok(r))
 
-    return [q_bmff_box_header, q_bmff_ftyp, q_bmff_small_helpers]
+    def q_bmff_ftyp_long(E):
+        """read_ftyp_box at every start position of a long stream (room for 60+ brands; declared sizes up to u64::MAX): no panic"""
+        d = raw_bytes(E, "data", C["long"])
+        pos = E.int("start", 40)
+        st = ms.stream(d, pos)
+        if E.mode == "symbolic":
+            E.I.loop_bound = C["long"] // 4 + 2
+        r = E.call("read_ftyp_box", st)
+        E.cover("ftyp accepted at a non-zero offset", z3.And(is_ok(r), ugt(pos.e, bv(0))))
+        E.cover("rejected", z3.Not(is_ok(r)))
+
+    return [q_bmff_box_header, q_bmff_ftyp, q_bmff_small_helpers, q_bmff_ftyp_long]
 
 
 def _stream_args(a):
@@ -88,4 +109,56 @@ def _stream_args(a):
 
 
 NATIVE_MAP = {"BoxHeaderLite::read": ("bmff_box_header", _stream_args), "read_ftyp_box": ("bmff_ftyp", _stream_args)}
-VECTORS = []
+
+
+# ---- encoder validation: the interpreter and the real parsers on concrete boxes ----------------------------
+def _comp_ftyp(I, args):
+    from symex import VVec, VTuple
+    import symex
+    data, pos = args
+    I.loop_bound = 80
+    r = I.call("read_ftyp_box", [ms.stream(VStr(bstr.lit(I.raw_args[0].encode("latin-1"))), bstr.cval(pos.e))])
+    if z3.is_true(z3.simplify(is_ok(r))):
+        f = r.payload["Ok"][0]
+        return ok(VStruct("?", {"minor_version": f.fields["minor_version"], "brands": VInt(z3.simplify(f.fields["compatible_brands"].n))}))
+    return VEnum("Result", TAG("Result", "Err"), {"Err": [VUnit()]})
+
+
+def _comp_hdr(I, args):
+    import symex
+    data, pos = args
+    r = I.call("BoxHeaderLite::read", [ms.stream(VStr(bstr.lit(I.raw_args[0].encode("latin-1"))), bstr.cval(pos.e))])
+    if z3.is_true(z3.simplify(is_ok(r))):
+        h = r.payload["Ok"][0]
+        return ok(VStruct("?", {"size": h.fields["size"], "large_size": h.fields["large_size"]}))
+    return VEnum("Result", TAG("Result", "Err"), {"Err": [VUnit()]})
+
+
+def _b(x):
+    return bytes(x).decode("latin-1")
+
+
+def _ftyp(brands, large=False, size=None):
+    body = b"isom" + bytes([0, 0, 2, 0]) + b"".join(brands)
+    n = (16 if large else 8) + len(body)
+    size = n if size is None else size
+    if large:
+        return bytes([0, 0, 0, 1]) + b"ftyp" + size.to_bytes(8, "big") + body
+    return size.to_bytes(4, "big") + b"ftyp" + body
+
+
+COMPOSITES = {"@ftyp": (_comp_ftyp, "bmff_ftyp", None), "@hdr": (_comp_hdr, "bmff_box_header", None)}
+VECTORS = [
+    ("@ftyp", [_b(_ftyp([b"isom", b"mp42"])), 0]),
+    ("@ftyp", [_b(bytes(8) + _ftyp([b"isom", b"mp42", b"avc1"])), 8]),
+    ("@ftyp", [_b(_ftyp([b"isom"], large=True)), 0]),
+    ("@ftyp", [_b(bytes(20) + _ftyp([b"isom", b"mp42"], large=True) + bytes(12)), 20]),
+    ("@ftyp", [_b(_ftyp([b"isom", b"mp42"], size=64)), 0]),       # declared size beyond the data
+    ("@ftyp", [_b(_ftyp([b"isom"], large=True, size=2 ** 64 - 20)), 0]),
+    ("@ftyp", [_b(bytes([0, 0, 0, 16]) + b"moov" + bytes(8)), 0]),  # no ftyp: defaults
+    ("@ftyp", [_b(_ftyp([b"isom"], size=14)), 0]),
+    ("@hdr", [_b(_ftyp([b"isom", b"mp42"])), 0]),
+    ("@hdr", [_b(bytes(3) + _ftyp([b"isom"], large=True)), 3]),
+    ("@hdr", [_b(bytes([0, 0, 0, 0]) + b"mdat" + bytes(9)), 0]),
+    ("@hdr", [_b(bytes(5)), 0]),
+]
